@@ -10,6 +10,7 @@ The positions come from how the interpreter lowers the language:
     And / Or operands after #1  -> Python BoolOp    (short-circuit)
     ListComp element / iterables-> Python ListComp  (per element, sees targets)
     While condition             -> Python While.test(every iteration)
+    Compare operands after #2   -> Python BoolOp    (the chain is a conjunction of pairwise tests)
 
 A *mask* is an override of the corresponding visitor in which the sub-visit
 of that position receives no preamble to hoist into (`None`), or a context
@@ -42,6 +43,7 @@ POSITIONS = {
     'ifexpr-arms': ('_visit_if_expr', ['e.ift', 'e.iff'], 'only one arm of a conditional expression is evaluated'),
     'boolop-tail': ('_visit_naryop', ['<And/Or operands after the first>'], '`and` / `or` short-circuit: later operands may not be evaluated'),
     'comp-elt': ('_visit_list_comp', ['e.elt'], 'a comprehension element is evaluated once per item and sees the loop targets'),
+    'compare-tail': ('_visit_compare', ['<chain operands after the second>'], 'a chained comparison `a < b < c` stops at the first false link: operands after the second may not be evaluated'),
 }
 
 
@@ -53,6 +55,7 @@ def universe_check(ctx: Ctx):
         ('BytecodeCompiler._visit_naryop', 'pyast.BoolOp'),
         ('BytecodeCompiler._visit_list_comp', 'pyast.ListComp'),
         ('BytecodeCompiler._visit_while', 'pyast.While'),
+        ('BytecodeCompiler._visit_compare', 'pyast.BoolOp'),
     }
     for q, node in sorted(want):
         fn = repo.func(BYTE, q)
@@ -113,6 +116,14 @@ def position_masked(repo, h: Hoister, pos: str) -> tuple[bool, str, ast.AST | No
     if not own:
         return False, f'{h.cls} does not override {meth}: the default visitor threads the preamble into every sub-expression', c
     f = own[0]
+    if pos == 'compare-tail':
+        # accepted form: the operands are visited one by one, those after the second under a masked context
+        for k in calls_in(f):
+            if call_name(k) == 'self._visit_expr' and len(k.args) >= 2:
+                okk, why = _masked(k.args[1], h.refusal_flags, 'ctx', f, h.mask_methods)
+                if okk:
+                    return True, why, f
+        return False, f'{meth} visits every operand of the chain with the preamble', f
     incoming = f.args.args[2].arg if len(f.args.args) > 2 else 'ctx'
     results = []
     for sub in subs:
